@@ -55,6 +55,14 @@ var glUnits = []glUnit{
 	{"GoRtp", []glTarget{
 		{"protocol/jt1078", "Packet", "Decode"},
 	}},
+	{"GoAttach", []glTarget{
+		{"attachment", "baseStreamDataHandle", "HasStreamData"},
+		{"attachment", "baseStreamDataHandle", "HasMinHeadLen"},
+		{"attachment", "baseStreamDataHandle", "Parse"},
+		{"attachment", "baseStreamDataHandle", "GetDataOffsetAndLen"},
+		{"attachment", "heiBiaoStreamDataHandle", "HasMinHeadLen"},
+		{"attachment", "heiBiaoStreamDataHandle", "Parse"},
+	}},
 	{"GoModel", []glTarget{
 		{"protocol/model", "P0x8001", "Encode"},
 		{"protocol/model", "P0x8001", "Parse"},
